@@ -160,4 +160,16 @@ def SPools.run (w : SPools) : List Op → SPools × List Out
     let (w'', os) := w'.run ops
     (w'', o :: os)
 
+/-- answers agree: Go map iteration order is not observable, so lists that come out of a map are compared
+as multisets; everything else must be equal -/
+def OutEquiv : Out → Out → Prop
+  | .atts a, .atts b => a.Perm b
+  | .pairs a, .pairs b => a.Perm b
+  | a, b => a = b
+
+/-- two answer streams agree position by position -/
+inductive OutsEquiv : List Out → List Out → Prop
+  | nil : OutsEquiv [] []
+  | cons {a b : Out} {l₁ l₂ : List Out} : OutEquiv a b → OutsEquiv l₁ l₂ → OutsEquiv (a :: l₁) (b :: l₂)
+
 end Zrnt.Pool.Spec
